@@ -1240,7 +1240,7 @@ type Case struct {
 	Structs   []SDecl  `json:"structs,omitempty"`
 	TopNil    bool     `json:"topnil,omitempty"` // Marshal(nil)
 	Probe     string   `json:"probe,omitempty"`  // registry probe: "dup-key" | "dup-type" (GenericRegister must refuse)
-	BB        int      `json:"bb,omitempty"`     // black-box companion: 1 = Pregel graph, 2 = DAG graph, 3 = DAG fan-in, 4..6 = the same through Stream, 7..10 = the value itself as pending input of type any, 11..14 = a nil pending input, 15..16 = an empty stream as pending input (see runBB)
+	BB        int      `json:"bb,omitempty"`     // black-box companion: 1 = Pregel graph, 2 = DAG graph, 3 = DAG fan-in, 4..6 = the same through Stream, 7..10 = the value itself as pending input of type any, 11..14 = a nil pending input, 15..16 = an empty stream as pending input, 17..20 = the interrupt inside a nested graph with its own state (see runBB, runBBNested)
 	Conv      int      `json:"conv,omitempty"`   // stream conversion of a pending input around an interrupt: the stream has no chunk (1, 4), the one chunk nil (2, 5), the one chunk that is the value (3, 6); resumed through Stream (1..3) or Invoke (4..6); 7..10: written by a run without streams, the pending input is nil (7, 9) or the value (8, 10), resumed through Stream (7, 8) or Invoke (9, 10) (see runConv)
 	T         *Ty      `json:"t,omitempty"`
 	V         *V       `json:"v,omitempty"`
@@ -1459,6 +1459,9 @@ func (s *memStore) Set(_ context.Context, id string, b []byte) error {
 // compared with what was there before the interrupt.
 // Returns the restored state (what the model is compared with) and the other restored copies.
 func runBB(mode int, val any) (state any, copies []any, bytes int, phase string, err error) {
+	if mode > 16 {
+		return runBBNested(mode-17, val)
+	}
 	ctx := context.Background()
 	// modes 7..14: the value itself (not a map holding it) is node a's output and node b's pending
 	// input, both of type any (7..10), and the same with node a returning nil, so that the pending
@@ -1648,6 +1651,133 @@ func runBB(mode int, val any) (state any, copies []any, bytes int, phase string,
 		}
 		return state, nil, bytes, "", nil
 	}
+}
+
+// runBBNested: modes 17..20.  The interrupt happens inside a nested graph that has a state of its own:
+// outer graph START -> pre -> sub -> END (state *Holder), sub = inner graph START -> a -> b -> END (its own
+// state *Holder), interrupted before b.  The checkpoint of the inner graph travels inside the outer
+// one (checkpoint.SubGraphs), is written to the store with it and handed back to the inner graph at the
+// resume (forwardCheckPoint, the inner restoreCheckPoint).  Compared: the outer state (returned as state,
+// the record the model is asked about), and as copies the inner state's two members, the pending input
+// of b and the output.  k: 0 Pregel / Invoke, 1 DAG / Invoke, 2 Pregel / Stream, 3 DAG / Stream.
+func runBBNested(k int, val any) (state any, copies []any, bytes int, phase string, err error) {
+	ctx := context.Background()
+	stream, dag := k >= 2, k%2 == 1
+	inner := compose.NewGraph[map[string]any, *Holder](compose.WithGenLocalState(func(ctx context.Context) *Holder {
+		return &Holder{}
+	}))
+	outer := compose.NewGraph[map[string]any, *Holder](compose.WithGenLocalState(func(ctx context.Context) *Holder {
+		return &Holder{}
+	}))
+	var bInput map[string]any
+	if err = inner.AddLambdaNode("a", compose.InvokableLambda(func(ctx context.Context, in map[string]any) (map[string]any, error) {
+		e := compose.ProcessState[*Holder](ctx, func(_ context.Context, h *Holder) error {
+			h.V = val
+			h.M = map[string]any{"w": val}
+			return nil
+		})
+		return map[string]any{"v": val, "x": in["x"]}, e
+	})); err != nil {
+		return nil, nil, 0, "build", err
+	}
+	if err = inner.AddLambdaNode("b", compose.InvokableLambda(func(ctx context.Context, in map[string]any) (*Holder, error) {
+		bInput = in
+		return &Holder{V: in["v"], M: in}, nil
+	})); err != nil {
+		return nil, nil, 0, "build", err
+	}
+	if err = outer.AddLambdaNode("pre", compose.InvokableLambda(func(ctx context.Context, in map[string]any) (map[string]any, error) {
+		e := compose.ProcessState[*Holder](ctx, func(_ context.Context, h *Holder) error {
+			h.V = val
+			h.M = map[string]any{"v": val}
+			return nil
+		})
+		return in, e
+	})); err != nil {
+		return nil, nil, 0, "build", err
+	}
+	innerOpts := []compose.GraphCompileOption{compose.WithInterruptBeforeNodes([]string{"b"})}
+	st := &memStore{m: map[string][]byte{}}
+	outerOpts := []compose.GraphCompileOption{compose.WithCheckPointStore(st)}
+	if dag {
+		innerOpts = append(innerOpts, compose.WithNodeTriggerMode(compose.AllPredecessor))
+		outerOpts = append(outerOpts, compose.WithNodeTriggerMode(compose.AllPredecessor))
+	}
+	for _, e := range [][2]string{{compose.START, "a"}, {"a", "b"}, {"b", compose.END}} {
+		if err = inner.AddEdge(e[0], e[1]); err != nil {
+			return nil, nil, 0, "build", err
+		}
+	}
+	if err = outer.AddGraphNode("sub", inner, compose.WithGraphCompileOptions(innerOpts...)); err != nil {
+		return nil, nil, 0, "build", err
+	}
+	for _, e := range [][2]string{{compose.START, "pre"}, {"pre", "sub"}, {"sub", compose.END}} {
+		if err = outer.AddEdge(e[0], e[1]); err != nil {
+			return nil, nil, 0, "build", err
+		}
+	}
+	r, err := outer.Compile(ctx, outerOpts...)
+	if err != nil {
+		return nil, nil, 0, "build", err
+	}
+	call := func(in map[string]any, opts ...compose.Option) (*Holder, error) {
+		if !stream {
+			return r.Invoke(ctx, in, opts...)
+		}
+		sr, err := r.Stream(ctx, in, opts...)
+		if err != nil {
+			return nil, err
+		}
+		defer sr.Close()
+		var out *Holder
+		for {
+			chunk, err := sr.Recv()
+			if err == io.EOF {
+				return out, nil
+			}
+			if err != nil {
+				return nil, err
+			}
+			if out != nil {
+				return nil, fmt.Errorf("more than one chunk")
+			}
+			out = chunk
+		}
+	}
+	_, err = call(map[string]any{"x": "in"}, compose.WithCheckPointID("cp"))
+	if err == nil {
+		return nil, nil, 0, "build", fmt.Errorf("the run was not interrupted")
+	}
+	if _, ok := compose.ExtractInterruptInfo(err); !ok {
+		return nil, nil, 0, "interrupt", err // the checkpoint could not be written
+	}
+	bytes = len(st.m["cp"])
+	var innerState any
+	innerSeen := 0
+	out, err := call(map[string]any{"x": "ignored"}, compose.WithCheckPointID("cp"),
+		compose.WithStateModifier(func(_ context.Context, path compose.NodePath, s any) error {
+			if len(path.GetPath()) == 0 {
+				state = s
+			} else {
+				innerState = s
+				innerSeen++
+			}
+			return nil
+		}))
+	if err != nil {
+		return nil, nil, bytes, "resume", err
+	}
+	ih, ok := innerState.(*Holder)
+	if !ok || ih == nil || innerSeen != 1 {
+		return state, nil, bytes, "resume", fmt.Errorf("the state of the nested graph was not restored: %T, modifier called %d times for it", innerState, innerSeen)
+	}
+	if bInput == nil || out == nil || bInput["x"] != "in" || out.M["x"] != "in" {
+		return state, nil, bytes, "resume", fmt.Errorf("node b of the nested graph did not receive the pending input: %v / %v", bInput, out)
+	}
+	if len(ih.M) != 1 {
+		return state, nil, bytes, "resume", fmt.Errorf("the state of the nested graph came back with %d members in M", len(ih.M))
+	}
+	return state, []any{ih.V, ih.M["w"], bInput["v"], out.V}, bytes, "", nil
 }
 
 type probeFresh int
@@ -2959,7 +3089,7 @@ func genCase(r *lib.Rng, tier string, i int) *Case {
 	}
 	sort.Strings(c.Malformed)
 	if len(c.Malformed) == 0 && i%6 == 2 {
-		c.BB = 1 + (i/6)%16 // through a real graph: interrupt, store, resume (see runBB)
+		c.BB = 1 + (i/6)%20 // through a real graph: interrupt, store, resume (see runBB)
 	}
 	if len(c.Malformed) == 0 && i%12 == 5 {
 		c.Conv = 1 + (i/12)%10 // the value as a stream / as itself in a checkpoint (see runConv)
